@@ -8,6 +8,9 @@ From FT Require Import Model.Base Model.Obs Model.C16Metrics Model.C16Nest Model
 Import ListNotations.
 Open Scope Z_scope.
 
+Section WithZZ.
+Context {zz : ZZ}.
+
 Lemma pnest_nth : forall lv j, pnest lv = true -> is_proj (nth j lv dflt_level) = false.
 Proof.
   induction lv as [|L lv IH]; intros j H; [destruct j; reflexivity|].
@@ -59,7 +62,10 @@ Proof.
       specialize (O3 Hsc Hjd'). unfold expect_rows in O3. fold j in O3. rewrite Nat.sub_0_r in O3.
       fold L in O3.
       destruct (key_kind k =? K_PROJ); [reflexivity|]. rewrite Hnz. cbn [andb].
-      rewrite O3. apply rows_eqb_refl.
+      rewrite O3.
+      rewrite (flat_map_ext _ (fun q => expect_at L false (key_kind k) (key_label k) [] [] (fst q) (snd q)))
+        by (intros q; apply expect_at_nz; exact Hnz).
+      apply rows_eqb_refl.
     + assert (Hdata : data = []) by (apply O4; change (0 + d <= j)%nat; lia).
       assert (Hh : hdrs k 0 d = []).
       { unfold hdrs. fold r. assert (r <? Z.of_nat d = false) as -> by (unfold j in *; lia).
@@ -124,6 +130,8 @@ Proof.
   apply andb_true_iff in H. destruct H as [_ H]. destruct (l_pop L); [discriminate|exact H].
 Qed.
 
+End WithZZ.
+
 (* the whole oracle for nests with a populate prefix, when no destination-side trace is registered *)
 Theorem model_meets_spec_pnest : forall c,
   c16_wf c = true -> c16_region c = 0 -> pnest (k_levels c) = true ->
@@ -131,6 +139,7 @@ Theorem model_meets_spec_pnest : forall c,
   c16_holds c (c16_model c) = true.
 Proof.
   intros c Hwf Hreg Hpn Hnz.
+  pose (zz := {| zz_in := Node []; zz_out := Node [] |}).
   destruct (n_pop (k_levels c)) as [|np] eqn:Enp.
   { apply model_meets_spec_eager; auto. apply pnest_eager; auto. }
   pose proof (wf_env_ok c Hwf) as Henv.
@@ -172,4 +181,203 @@ Proof.
   apply trace_ok_of_spec2; auto; try lia; try (apply traced_in; auto);
     try (intros j; apply Hprj; exact Hpn);
     try (destruct (is_zside (key_kind k)); [discriminate|reflexivity]).
+Qed.
+
+(* ------------------------------------------------------------------ destination side included:
+   nests whose populate prefix is the first level only, root traversal not inserting *)
+Lemma tree_of_V_tree16 : forall t, tree_of_V (V_tree t) = t.
+Proof.
+  induction t as [v|es IH] using tree_ind'; [reflexivity|].
+  cbn [V_tree tree_of_V]. rewrite map_map. f_equal.
+  induction es as [|[a t] es IHes]; [reflexivity|]. inversion IH; subst. cbn [map fst snd].
+  cbn [snd] in H1. rewrite H1. f_equal. apply IHes. exact H2.
+Qed.
+
+Lemma filter_all : forall {A} (f : A -> bool) l, (forall a, f a = true) -> filter f l = l.
+Proof. intros A f l H. induction l as [|a l IH]; cbn; auto. rewrite H, IH. reflexivity. Qed.
+
+Lemma space_0 : forall lv pe, space lv 0 pe = pe.
+Proof. intros lv pe. destruct lv; reflexivity. Qed.
+
+Section Z1.
+Context {zz : ZZ}.
+
+Lemma trace_ok_of_spec_z : forall c k data,
+  (forall j, is_proj (nth j (k_levels c) dflt_level) = false) -> (length (k_levels c) <= 3)%nat ->
+  0 <= key_rank k -> traced c k = true ->
+  zz_in = k_z c ->
+  (forall j, (0 < j)%nat -> l_pop (nth j (k_levels c) dflt_level) = false) ->
+  (l_pop (nth 0 (k_levels c) dflt_level) = true ->
+   appending (nth 0 (k_levels c) dflt_level) (zdesc (k_z c) []) (k_inputs c) = true) ->
+  let d := dr (k_levels c) [([], k_inputs c)] in
+  rows_ok true (traced c) 0 [] (k_levels c) [] (k_inputs c) k data ->
+  trace_ok c zz_out k (hdrs k 0 d ++ data) = true.
+Proof.
+  intros c k data Hprj Hlen Hr Htr Hzi Hdeep Happ d [_ Hok]. specialize (Hok Hr).
+  unfold deep_ok in Hok. cbv zeta in Hok. destruct Hok as (O1 & O2 & O3 & O4).
+  set (lv := k_levels c) in *. set (e := k_inputs c) in *.
+  set (r := key_rank k) in *. set (j := Z.to_nat r) in *.
+  assert (Hd : (d <= length lv)%nat) by apply dr_le.
+  unfold trace_ok. fold lv. fold e. fold r.
+  destruct (50 <=? r) eqn:E50.
+  - assert (Hdata : data = []) by (apply O4; change (0 + d <= j)%nat; unfold j; lia).
+    assert (Hh : hdrs k 0 d = []).
+    { unfold hdrs. fold r. assert (r <? Z.of_nat d = false) as -> by lia. rewrite andb_false_r. reflexivity. }
+    rewrite Hh, Hdata. cbn [app]. rewrite (Hprj (Z.to_nat (r - 50))).
+    cbn [negb orb]. rewrite andb_false_r. reflexivity.
+  - cbn [negb orb]. assert ((0 <=? r) = true) as -> by lia.
+    fold j. pose proof (Hprj j) as Hp. set (L := nth j lv dflt_level) in *.
+    destruct (Nat.lt_ge_cases j d) as [Hjd|Hjd].
+    + pose proof (proj1 (dr_space lv j [([], e)]) Hjd) as [Hsp Hjl].
+      assert (Hh : hdrs k 0 d = [header (iota (S j)) j]).
+      { unfold hdrs. fold r. fold j. assert ((Z.of_nat 0 <=? r) && (r <? Z.of_nat d) = true) as -> by (unfold j in *; lia).
+        reflexivity. }
+      rewrite Hh. cbn [app].
+      assert (Hreached : match space lv j [([], e)] with [] => false | _ :: _ => Nat.ltb j (length lv) end = true).
+      { destruct (space lv j [([], e)]); [congruence|]. apply Nat.ltb_lt. exact Hjl. }
+      rewrite Hreached. cbn [andb]. rewrite Hp, ref_header_eq, list_eqb_refl. cbn [andb].
+      assert (Hw : forallb (fun rw => Nat.eqb (length rw) (2 * S j + 1)) data = true).
+      { apply forallb_forall. intros rw Hin. rewrite Forall_forall in O1. destruct (O1 _ Hin) as [_ Hl].
+        apply Nat.eqb_eq. exact Hl. }
+      rewrite Hw. cbn [andb]. unfold stampR in O2. rewrite O2. cbn [andb].
+      assert (Hsc : addr_scope true (traced c) k = true).
+      { unfold addr_scope. rewrite Htr, orb_true_r. reflexivity. }
+      assert (Hjd' : (j < 0 + dr lv [([], e)])%nat) by (change (j < 0 + d)%nat; lia).
+      specialize (O3 Hsc Hjd'). unfold expect_rows in O3. fold j in O3. rewrite Nat.sub_0_r in O3.
+      fold L in O3.
+      destruct (key_kind k =? K_PROJ); [reflexivity|].
+      destruct (is_zside (key_kind k)) eqn:Ez; cbn [andb negb].
+      * destruct (l_pop L) eqn:Hpop.
+        { (* the populate level: the root *)
+          assert (Hj0 : j = O).
+          { destruct j as [|j']; [reflexivity|]. exfalso.
+            assert (l_pop L = false) by (apply Hdeep; lia). congruence. }
+          rewrite O3. clear O3. change (Z.to_nat (key_rank k)) with j. revert Hpop. unfold L. rewrite Hj0. clear L Hp. intros Hpop.
+          specialize (Happ Hpop). fold lv e in Happ.
+          rewrite !space_0. cbn [flat_map app fst snd firstn]. rewrite ?app_nil_r. rewrite Hzi.
+          apply andb_true_iff. split.
+          - apply forallb_forall. intros rw _. reflexivity.
+          - cbn [forallb]. rewrite andb_true_r. cbn [fst snd]. rewrite Happ.
+            rewrite filter_all by (intros; reflexivity). apply rows_eqb_refl. }
+        assert (Hexp : forall zi zf q, expect_at L false (key_kind k) (key_label k) zi zf (fst q) (snd q) = []).
+        { intros. apply expect_zside_nopop; auto. }
+        rewrite (flat_map_nil _ _ (fun q => Hexp (zdesc zz_in (fst q)) (zdesc zz_out (fst q)) q)) in O3.
+        rewrite O3. cbn [forallb andb].
+        apply forallb_forall. intros q _. rewrite Hexp. cbn [filter rows_eqb].
+        destruct (appending L _ _); [reflexivity|]. unfold read_covered. rewrite Hpop, andb_false_r. reflexivity.
+      * rewrite O3.
+        rewrite (flat_map_ext _ (fun q => expect_at L false (key_kind k) (key_label k) [] [] (fst q) (snd q)))
+          by (intros q; apply expect_at_nz; exact Ez).
+        apply rows_eqb_refl.
+    + assert (Hdata : data = []) by (apply O4; change (0 + d <= j)%nat; lia).
+      assert (Hh : hdrs k 0 d = []).
+      { unfold hdrs. fold r. assert (r <? Z.of_nat d = false) as -> by (unfold j in *; lia).
+        rewrite andb_false_r. reflexivity. }
+      rewrite Hh, Hdata. cbn [app].
+      assert (Hnr : match space lv j [([], e)] with [] => false | _ :: _ => Nat.ltb j (length lv) end = false).
+      { destruct (space lv j [([], e)]) eqn:Es; auto. apply Nat.ltb_ge.
+        destruct (Nat.lt_ge_cases j (length lv)) as [Hl|Hl]; auto. exfalso.
+        assert (j < d)%nat; [|lia]. apply dr_space. split; auto. rewrite Es. discriminate. }
+      rewrite Hnr. reflexivity.
+Qed.
+
+End Z1.
+
+(* the root traversal of a case with a populated tensor does not insert *)
+Definition root_appending (c : c16_case) : bool :=
+  match k_levels c with
+  | L :: _ => appending L (zdesc (k_z c) []) (k_inputs c)
+  | [] => true
+  end.
+
+(* the whole oracle - destination-side traces included - for nests whose populate prefix is at most
+   the first level, when the root traversal does not insert *)
+Theorem model_meets_spec_pop1 : forall c,
+  c16_wf c = true -> c16_region c = 0 -> pnest (k_levels c) = true ->
+  (n_pop (k_levels c) <= 1)%nat -> root_appending c = true ->
+  c16_holds c (c16_model c) = true.
+Proof.
+  intros c Hwf Hreg Hpn Hn1 Hra.
+  destruct (n_pop (k_levels c)) as [|np] eqn:Enp.
+  { apply model_meets_spec_eager; auto. apply pnest_eager; auto. }
+  assert (np = O) by lia. subst np.
+  pose proof (wf_env_ok c Hwf) as Henv.
+  assert (Hfacts : (length (k_levels c) <= 3)%nat
+                   /\ forallb (fun k => 0 <=? key_rank k) (k_keys c) = true
+                   /\ k_thresholds c <> [] /\ depth_ok 1 (k_z c) = true /\ sorted_t (k_z c) = true).
+  { unfold c16_wf in Hwf. pose proof Hwf as H. rewrite Enp in H. cbv beta iota zeta in H.
+    repeat (apply andb_true_iff in H; destruct H as [H ?]).
+    repeat split.
+    - match goal with Hl : Nat.leb (length (k_levels c)) 3 = true |- _ => apply Nat.leb_le in Hl; exact Hl end.
+    - assumption.
+    - intros E. match goal with Hn : negb (Nat.eqb (length (k_thresholds c)) 0) = true |- _ =>
+        rewrite E in Hn; discriminate end.
+    - match goal with Hx : depth_ok 1 (k_z c) && _ && _ = true |- _ =>
+        apply andb_true_iff in Hx; destruct Hx as [Hx _]; apply andb_true_iff in Hx; apply Hx end.
+    - match goal with Hx : depth_ok 1 (k_z c) && _ && _ = true |- _ =>
+        apply andb_true_iff in Hx; destruct Hx as [Hx _]; apply andb_true_iff in Hx; apply Hx end. }
+  destruct Hfacts as (Hlen & Hranks & Hths & Hdz & Hsz).
+  pose proof (pnest_nth (k_levels c)) as Hprj.
+  destruct (depth_node _ _ Hdz) as (zes & Ezt & Hft).
+  destruct (k_levels c) as [|L lv] eqn:Elv; [discriminate|].
+  cbn [n_pop] in Enp. destruct (l_pop L) eqn:EP; [|discriminate]. injection Enp as Enp.
+  cbn [pnest] in Hpn. rewrite EP in Hpn. apply andb_true_iff in Hpn. destruct Hpn as [Hok Hpn'].
+  assert (Heg : forallb eager_level lv = true) by (apply pnest_eager; auto).
+  assert (Hj : l_proj L = None).
+  { unfold lvl_ok in Hok. destruct (l_proj L); [discriminate|reflexivity]. }
+  unfold root_appending in Hra. rewrite Elv in Hra.
+  (* the final tree *)
+  set (z0 := {| th_z := Some (Node zes); th_lab := lab0 |}).
+  set (res := run (traced c) (k_zshape c) 1 (k_skip c) (L :: lv) 0 [] (k_inputs c) z0).
+  assert (Hev : c16_events c = (fst res, th_z (snd res))).
+  { unfold c16_events, z_in. rewrite Elv. cbn [n_pop]. rewrite EP, Enp, Ezt. reflexivity. }
+  assert (Hpn2 : pnest (L :: lv) = true) by (cbn [pnest]; rewrite EP, Hok, Hpn'; reflexivity).
+  destruct (pnest_inv (traced c) (k_zshape c) (k_skip c) (L :: lv) Hpn2 1%nat 0%nat [] (k_inputs c) z0)
+    as [_ (tf & Htf & Hdf)].
+  { cbn [n_pop]. rewrite EP, Enp. reflexivity. }
+  { apply labinv0. }
+  { cbn [n_pop]. rewrite EP, Enp. exists (Node zes). split; [reflexivity|]. rewrite <- Ezt. exact Hdz. }
+  cbn [n_pop] in Hdf. rewrite EP, Enp in Hdf. destruct (depth_node _ _ Hdf) as (zf & -> & _).
+  fold res in Htf.
+  pose (zz := {| zz_in := k_z c; zz_out := Node zf |}).
+  assert (HZ : true = true -> zside_ok (traced c) (k_zshape c) 1 0 L
+                 (fun c0 e' z' => run (traced c) (k_zshape c) 1 (k_skip c) lv 1 ([] ++ [c0]) e' z') [] (k_inputs c) z0 zes).
+  { intros _. unfold zside_ok. cbn [zz_in zz_out zz]. rewrite Ezt. cbn [zdesc]. split; [reflexivity|].
+    split; [exact Htf|]. split; [rewrite Ezt in Hra; exact Hra|]. split.
+    - rewrite Ezt in Hsz. cbn [sorted_t] in Hsz. apply andb_true_iff in Hsz. apply ssorted_f_of. apply Hsz.
+    - apply asc_src_ok; auto. }
+  assert (Hpo : nest_pos_ok (traced c) 0 (L :: lv) (k_inputs c)).
+  { rewrite <- Elv. apply region0_pos_ok; auto; rewrite Elv; auto; intros j; apply Hprj; exact Hpn2. }
+  pose proof (pop1_spec true 0 (traced c) (k_zshape c) (k_skip c) L lv (k_inputs c) zes Hok EP Heg Hft Henv Hpo HZ) as Hspec.
+  fold z0 in Hspec. fold res in Hspec.
+  rewrite model_flush_consumable. unfold c16_holds. rewrite Hwf. cbn [andb].
+  set (st := exec 0 (init_state (k_keys c) true false) (fst (c16_events c))).
+  set (B := files_of c st).
+  destruct (k_thresholds c) as [|t0 ths] eqn:Et; [congruence|]. cbn [map].
+  assert (HB : files_wf B = true) by apply files_wf_files_of.
+  assert (HBB : V_eqb B B = true) by apply V_eqb_refl.
+  cbn [forallb]. rewrite !HB, (forallb_const files_wf B ths HB). cbn [andb].
+  cbn [length]. rewrite map_length, Nat.eqb_refl. cbn [andb].
+  rewrite (forallb_const (V_eqb B) B ths HBB), HBB. rewrite !andb_true_r.
+  unfold B, files_of, Vl. cbn [V_list]. rewrite all_ok_map. apply forallb_forall. intros k Hk.
+  rewrite forallb_forall in Hranks. specialize (Hranks k Hk).
+  assert (Hsh : shape 0 0 [] [] (init_state (k_keys c) true false)).
+  { unfold shape. cbn. repeat split; auto. }
+  destruct (Hspec 0%nat [] _ Hsh) as (_ & _ & E1).
+  destruct (E1 k) as (data & Ed & Od). cbn [Nat.max plus] in Ed.
+  assert (Est : exec 0 (init_state (k_keys c) true false) (fst res) = st).
+  { unfold st. rewrite Hev. reflexivity. }
+  rewrite (files_of_alt c st k). fold (content st k). rewrite <- Est.
+  rewrite content_is_emits by auto. rewrite Ed, rows_of_V_rows.
+  rewrite Hev. cbn [snd]. rewrite Htf. rewrite tree_of_V_tree16.
+  change (Node zf) with (@zz_out zz). rewrite <- Elv.
+  apply (trace_ok_of_spec_z c k data).
+  - intros j. rewrite Elv. apply Hprj. exact Hpn2.
+  - rewrite Elv. exact Hlen.
+  - apply Z.leb_le. exact Hranks.
+  - apply traced_in. exact Hk.
+  - reflexivity.
+  - intros j Hj0. rewrite Elv. destruct j as [|j]; [inversion Hj0|]. cbn [nth]. apply (eager_nth lv j Heg).
+  - rewrite Elv. cbn [nth]. intros _. exact Hra.
+  - rewrite Elv. exact Od.
 Qed.
